@@ -375,4 +375,21 @@ def mountPrefetch (dflt : Int) (labels : Labels) : Int :=
     | some n => n
     | none => dflt
 
+/-- What `fs.Mount` hands on: `src[0]` of `getSources(labels)` is resolved (name, target descriptor
+with its URLs), `neighboringLayers(src[0].Manifest, src[0].Target)` are pre-resolved, and target and
+neighbours are prefetched with the size taken from the label (else the configured default).
+`none`: Mount returns the readers' error without resolving anything. -/
+structure MountView (R : Type) where
+  name : R
+  target : Str
+  urls : List Str
+  preResolve : List (Str × List Str)
+  prefetch : Int
+deriving DecidableEq, Repr
+
+def mountView {R : Type} (parseRef : Str → Option R) (dflt : Int) (labels : Labels) : Option (MountView R) :=
+  (readBoth parseRef labels).map fun s =>
+    { name := s.name, target := s.target, urls := s.urls, preResolve := mountNeighbours s,
+      prefetch := mountPrefetch dflt labels }
+
 end SV.Labels
